@@ -316,6 +316,25 @@ class LangGen:
                 kids.append(self.elt(cmd, [mt]))
         return [self.root(kids)]
 
+    def pubid_docs(self):
+        """the header's own string against the string table: the language's XML public identifier also occurs as content
+        (twice: it is then already in the table when wbxml_fill_header adds it and the header must point at the
+        existing entry; once; as a proper prefix / suffix / extension of other repeated strings)"""
+        pub = self.lang["pub_text"]
+        if not pub:
+            return []
+        ts = [t for t in self.tags if not self.is_typed(t)]
+        if not ts:
+            return []
+        pick = lambda k: ts[k % len(ts)]
+        docs = []
+        for texts in ([pub, "between", pub],
+                      ["first_repeated_string", "first_repeated_string", pub, pub, "x" + pub, pub + "y", pub[:-2], pub[:-2]],
+                      [pub],
+                      [pub + " tail", pub + " tail", "zz", pub[1:], pub[1:]]):
+            docs.append(self.root([self.elt(pick(k), [tx]) for k, tx in enumerate(texts)]))
+        return docs
+
     def boundary_docs(self):
         """lengths and offsets at the mb_u_int32 boundaries 127/128 and 16383/16384/16385: OPAQUE (CDATA) payloads, a string
         table of exactly 16384 octets, a literal and a table reference at offset 16384"""
@@ -405,6 +424,8 @@ def documents(tj, rng, quick=True, token_root=False):
         for d in g.text_docs(False, False):
             out.append((lang["id"], "text", (hdr + render(d, None, rootdecl=g.rootdecl)).encode("utf-8"), False))
             out.append((lang["id"], "text-indented", (hdr + render(d, 2, rootdecl=g.rootdecl)).encode("utf-8"), False))
+        for d in g.pubid_docs():
+            out.append((lang["id"], "pubid-in-table", (hdr + render(d, None, rootdecl=g.rootdecl)).encode("utf-8"), False))
         for d in g.embedded_docs():
             out.append((lang["id"], "embedded", (hdr + render(d, None, rootdecl=g.rootdecl)).encode("utf-8"), False))
         if lang["id"] in (1104, 1301):
